@@ -17,7 +17,7 @@ pub const FILL: u16 = 0x0000;
 pub fn base_image(fill: u16) -> Arc<Vec<u16>> {
     static B: OnceLock<Mutex<BTreeMap<u16, Arc<Vec<u16>>>>> = OnceLock::new();
     let m = B.get_or_init(|| Mutex::new(BTreeMap::new()));
-    let mut g = m.lock().unwrap();
+    let mut g = m.lock().unwrap_or_else(|e| e.into_inner());
     g.entry(fill).or_insert_with(|| {
         let sim = Simulator::new(SimFlags { machine_init: MachineInitStrategy::Known { value: fill }, ..Default::default() });
         Arc::new((0..=0xFFFFu16).map(|a| sim.mem[a].get()).collect())
@@ -28,8 +28,8 @@ pub fn base_image(fill: u16) -> Arc<Vec<u16>> {
 #[derive(Clone, Default)]
 pub struct Recorder { pub log: Arc<Mutex<Vec<(bool, u16, u16)>>> }
 impl ExternalDevice for Recorder {
-    fn io_read(&mut self, addr: u16, effectful: bool) -> Option<u16> { if effectful { self.log.lock().unwrap().push((false, addr, 0)); } Some(custom_value(addr)) }
-    fn io_write(&mut self, addr: u16, data: u16) -> bool { self.log.lock().unwrap().push((true, addr, data)); true }
+    fn io_read(&mut self, addr: u16, effectful: bool) -> Option<u16> { if effectful { self.log.lock().unwrap_or_else(|e| e.into_inner()).push((false, addr, 0)); } Some(custom_value(addr)) }
+    fn io_write(&mut self, addr: u16, data: u16) -> bool { self.log.lock().unwrap_or_else(|e| e.into_inner()).push((true, addr, data)); true }
     fn io_reset(&mut self) {}
     fn poll_interrupt(&mut self) -> Option<Interrupt> { None }
 }
@@ -38,15 +38,16 @@ impl ExternalDevice for Recorder {
 #[derive(Clone)]
 pub struct IntSource { pub vect: u8, pub prio: u8, pub state: Arc<Mutex<IntState>> }
 #[derive(Default)]
-pub struct IntState { pub poll: u64, pub raise_at: Vec<u64>, pub pending: u32, pub clear_mcr_at: Option<u64>, pub mcr: Option<Arc<std::sync::atomic::AtomicBool>> }
+pub struct IntState { /** edge-triggered: a request is visible only at the poll it is raised at (lost if not taken then) */ pub edge: bool, pub poll: u64, pub raise_at: Vec<u64>, pub pending: u32, pub clear_mcr_at: Option<u64>, pub mcr: Option<Arc<std::sync::atomic::AtomicBool>> }
 impl ExternalDevice for IntSource {
     fn io_read(&mut self, _: u16, _: bool) -> Option<u16> { None }
     fn io_write(&mut self, _: u16, _: u16) -> bool { false }
     fn io_reset(&mut self) {}
     fn poll_interrupt(&mut self) -> Option<Interrupt> {
-        let mut s = self.state.lock().unwrap();
+        let mut s = self.state.lock().unwrap_or_else(|e| e.into_inner());
         let p = s.poll; s.poll += 1;
         let n = s.raise_at.iter().filter(|x| **x == p).count() as u32;
+        if s.edge { return if n > 0 { Some(Interrupt::vectored(self.vect, self.prio)) } else { None }; }
         s.pending += n;
         if let (Some(at), Some(m)) = (s.clear_mcr_at, &s.mcr) { if at == p { m.store(false, std::sync::atomic::Ordering::Relaxed); } }
         if s.pending > 0 { Some(Interrupt::vectored(self.vect, self.prio)) } else { None }
@@ -69,6 +70,8 @@ pub struct Machine {
     pub kb_ie: bool,
     pub display: bool,
     pub custom: bool,
+    /// registers left as the machine initialised them (uninitialised, holding the fill value) instead of being set
+    pub uninit_regs: u8,
 }
 impl Machine {
     pub fn user() -> Machine { Machine { pc: 0x3000, psr: 0x8002, saved_sp: 0x3000, regs: [0; 8], kb: Some(vec![]), display: true, custom: true, ..Default::default() } }
@@ -97,7 +100,7 @@ pub fn build(m: &Machine) -> Pair {
     rf.real_traps = m.real_traps; rf.ignore_priv = m.ignore_priv;
     let kb = BufferedKeyboard::default(); let disp = BufferedDisplay::default(); let rec = Recorder::default();
     if let Some(q) = &m.kb {
-        kb.get_buffer().write().unwrap().extend(q.iter().copied());
+        kb.get_buffer().write().unwrap_or_else(|e| e.into_inner()).extend(q.iter().copied());
         sim.device_handler.set_keyboard(kb.clone());
         rf.kb_attached = true; rf.kb_queue = q.iter().copied().collect::<VecDeque<u8>>();
     }
@@ -106,7 +109,7 @@ pub fn build(m: &Machine) -> Pair {
     sim.mmap_internal(SSP_PORT, InternalRegister::SavedSP).expect("mmap SavedSP");
     rf.iregs.insert(SSP_PORT, IReg::SavedSp);
     for (a, v) in &m.pokes { sim.mem[*a].set(*v); rf.set_mem(*a, *v); }
-    for i in 0..8 { sim.reg_file[reg(i)].set(m.regs[i as usize]); rf.r[i as usize] = m.regs[i as usize]; }
+    for i in 0..8 { if m.uninit_regs >> i & 1 == 1 { rf.r[i as usize] = sim.reg_file[reg(i)].get(); continue; } sim.reg_file[reg(i)].set(m.regs[i as usize]); rf.r[i as usize] = m.regs[i as usize]; }
     sim.pc = m.pc; rf.pc = m.pc;
     let omni = MemAccessCtx::omnipotent();
     sim.write_mem(0xFFFC, Word::new_init(m.psr), omni).expect("set PSR"); rf.write_psr(m.psr); rf.set_mem(0xFFFC, m.psr);
@@ -130,9 +133,9 @@ pub fn build_reused(m: &Machine, prior: &Machine, steps: u32) -> Result<Pair, St
     let fresh = build(m); // supplies the reference machine (and is dropped)
     let Pair { rf, .. } = fresh;
     p.rf = rf;
-    { let mut q = p.kb.get_buffer().write().unwrap(); q.clear(); q.extend(m.kb.clone().unwrap_or_default()); }
-    p.disp.get_buffer().write().unwrap().clear();
-    p.rec.log.lock().unwrap().clear();
+    { let mut q = p.kb.get_buffer().write().unwrap_or_else(|e| e.into_inner()); q.clear(); q.extend(m.kb.clone().unwrap_or_default()); }
+    p.disp.get_buffer().write().unwrap_or_else(|e| e.into_inner()).clear();
+    p.rec.log.lock().unwrap_or_else(|e| e.into_inner()).clear();
     let sim = &mut p.sim;
     for (a, v) in &m.pokes { sim.mem[*a].set(*v); }
     for i in 0..8 { sim.reg_file[reg(i)].set(m.regs[i as usize]); }
@@ -156,7 +159,7 @@ impl Pair {
     fn next_requests(&self) -> Vec<(u8, u8)> {
         let mut v = vec![];
         for s in &self.sources {
-            let st = s.state.lock().unwrap();
+            let st = s.state.lock().unwrap_or_else(|e| e.into_inner());
             let will = st.pending + st.raise_at.iter().filter(|x| **x == st.poll).count() as u32;
             if will > 0 { v.push((s.vect, s.prio.min(7))); }
         }
@@ -185,10 +188,10 @@ pub fn step_compare(p: &mut Pair, check_observer: bool) -> Result<StepInfo, (Str
     p.rf.kb_locked = false; p.rf.disp_locked = false;
     let stepped = {
         let (kbuf, dbuf) = (p.kb.get_buffer().clone(), p.disp.get_buffer().clone());
-        let _gk = if p.hold_kb && !p.hold_read { Some(kbuf.write().unwrap()) } else { None };
-        let _gd = if p.hold_disp && !p.hold_read { Some(dbuf.write().unwrap()) } else { None };
-        let _rk = if p.hold_kb && p.hold_read { Some(kbuf.read().unwrap()) } else { None };
-        let _rd = if p.hold_disp && p.hold_read { Some(dbuf.read().unwrap()) } else { None };
+        let _gk = if p.hold_kb && !p.hold_read { Some(kbuf.write().unwrap_or_else(|e| e.into_inner())) } else { None };
+        let _gd = if p.hold_disp && !p.hold_read { Some(dbuf.write().unwrap_or_else(|e| e.into_inner())) } else { None };
+        let _rk = if p.hold_kb && p.hold_read { Some(kbuf.read().unwrap_or_else(|e| e.into_inner())) } else { None };
+        let _rd = if p.hold_disp && p.hold_read { Some(dbuf.read().unwrap_or_else(|e| e.into_inner())) } else { None };
         catch(|| p.sim.step_in())
     };
     let res = match stepped { Ok(r) => r, Err(m) => return Err((format!("panic:{}", panic_site(&m)), format!("step_in panicked at pc=x{pre_pc:04X}: {m}"))) };
@@ -196,7 +199,7 @@ pub fn step_compare(p: &mut Pair, check_observer: bool) -> Result<StepInfo, (Str
     let mut taken = None;
     if out == Outcome::Interrupted {
         let v = ((p.rf.frames.last().map(|f| f.1).unwrap_or(0)) - 0x100) as u8;
-        if let Some(s) = p.sources.iter().find(|s| s.vect == v) { let mut st = s.state.lock().unwrap(); if st.pending > 0 { st.pending -= 1; } taken = Some((v, s.prio)); } else { taken = Some((v, 4)); }
+        if let Some(s) = p.sources.iter().find(|s| s.vect == v) { let mut st = s.state.lock().unwrap_or_else(|e| e.into_inner()); if st.pending > 0 { st.pending -= 1; } taken = Some((v, s.prio)); } else { taken = Some((v, 4)); }
     }
     let ctx = format!("word=x{:04X} at pc=x{pre_pc:04X} psr=x{pre_psr:04X} real_traps={} ignore_priv={}", p.rf.mem(pre_pc), p.rf.real_traps, p.rf.ignore_priv);
     // ---- result variant
@@ -224,11 +227,11 @@ pub fn step_compare(p: &mut Pair, check_observer: bool) -> Result<StepInfo, (Str
             if g != p.rf.mem(a.addr) { return Err((format!("mem:{}", outcome_name(&out)), format!("{ctx}: mem[x{:04X}] = x{g:04X}, reference x{:04X}", a.addr, p.rf.mem(a.addr)))); }
         }
     }
-    let d: Vec<u8> = p.disp.get_buffer().read().unwrap().clone();
+    let d: Vec<u8> = p.disp.get_buffer().read().unwrap_or_else(|e| e.into_inner()).clone();
     if d != p.rf.disp { return Err(("display".into(), format!("{ctx}: display {d:x?}, reference {:x?}", p.rf.disp))); }
-    let q: Vec<u8> = p.kb.get_buffer().read().unwrap().iter().copied().collect();
+    let q: Vec<u8> = p.kb.get_buffer().read().unwrap_or_else(|e| e.into_inner()).iter().copied().collect();
     if p.rf.kb_attached && q != p.rf.kb_queue.iter().copied().collect::<Vec<u8>>() { return Err(("keyboard".into(), format!("{ctx}: keyboard queue {q:x?}, reference {:x?}", p.rf.kb_queue))); }
-    let rl = p.rec.log.lock().unwrap().clone();
+    let rl = p.rec.log.lock().unwrap_or_else(|e| e.into_inner()).clone();
     if rl != p.rf.custom_log { return Err(("custom-device".into(), format!("{ctx}: recording device saw {rl:x?}, reference {:x?}", p.rf.custom_log))); }
     if p.sim.instructions_run - before_cnt != (out == Outcome::Executed) as u64 { return Err(("instruction-count".into(), format!("{ctx}: instructions_run advanced by {}, reference outcome {out:?}", p.sim.instructions_run - before_cnt))); }
     if check_observer {
